@@ -863,7 +863,7 @@ package channel
 // holds for the decoded fields and the cached ID was computed from exactly these fields (NewParamsUnsafe's call-site obligation).
 //@ func (*Params).Decode
 //@   requires r != nil && p != nil
-//@   modifies *
+//@   modifies p.*, ghost("rpos")
 //@   ensures result == nil ==> p.ChallengeDuration != 0 && len(p.Parts) >= MinNumParts && len(p.Parts) <= MaxNumParts && p.App != nil && p.Nonce != nil &&
 //@           bytelen(val(p.Nonce)) <= MaxNonceLen && p.id != Zero && forall i int :: 0 <= i && i < len(p.Parts) ==> len(p.Parts[i]) > 0 && partKeysOK(p.Parts[i])
 
